@@ -18,7 +18,7 @@ func init() {
 		Decided: "(a) the lock-order graph over every lock class of the repository (server bookkeeping locks, multiplex locks reached through Session.Close/SetTerminalMsg, client locks) is acyclic, has no self re-acquisition and no nested read-lock — necessary for deadlock freedom and, for code whose only blocking while holding these locks is lock acquisition, sufficient; " +
 			"(b) no network I/O or session close is reachable while activeUsersM or usageUpdateQueueM is held; " +
 			"(c) every pair (insert into ActiveUser.sessions, delete from userPanel.activeUsers) — the two writes that can falsify 'a live session is owned by the registered record' — shares a lock and the delete re-checks emptiness under it.",
-		NotDecided: "deadlocks that are not lock cycles (a goroutine waiting for I/O forever, channel waits); the ownership invariant as a run-time fact; fairness of sync.RWMutex.",
+		NotDecided:  "deadlocks that are not lock cycles (a goroutine waiting for I/O forever, channel waits); the ownership invariant as a run-time fact; fairness of sync.RWMutex.",
 		Assumptions: []string{"external blocking primitives (bbolt, ratelimit, sockets) are leaves of the order graph", "library call-backs are followed through at most 5 library frames"},
 	})
 }
